@@ -347,7 +347,10 @@ class HCT(Algorithm):
 
         self.updateBackwardTree()
 
-        if end_node.get_visited_times() >= self.tau_h[en_depth]:
+        if (
+            end_node.get_children() is None
+            and end_node.get_visited_times() >= self.tau_h[en_depth]
+        ):
             self.expand(end_node)
 
     def pull(self, time):
